@@ -229,23 +229,25 @@ def calib(p, problem, processor):
         dt = archi.run_evolve(readout=problem.readout, num_rows=2, num_cols=2,
                               num_evolutions=int(p.get("evolutions", 2)),
                               num_best_decisions=p.get("num_best", 3))
-        load_simulated(dt)
+        load_err = load_simulated(dt)
     finally:
         ModelFittingDataTree.fitness = orig
         final, pr.GLOBAL = pr.GLOBAL, None
 
-    return collect(p, problem, log, dt, final)
+    return collect(p, problem, log, dt, final, load_err)
 
 
 def load_simulated(dt):
     """The simulated outputs of the result are lazy: loading one runs the pipeline once per island with the last
     champions' parameters (that run is what C10 observes).  In the unchanged tree the load itself then fails
     (`_apply_parameters` asks for with_inherited_coords=True, `extract_data_3d` reads data_tree["pixel"]): that
-    is not a statement of C10, so the error is ignored here; the probe models have run by then."""
+    is not a statement of C10, so that error is ignored; the probe models have run by then.  Returned: the
+    error text, so that a load that fails BEFORE any pipeline ran (update_processor raising) can be told apart."""
     try:
         _ = dt["/simulated/pixel"].to_numpy()
-    except Exception:  # noqa: BLE001
-        pass
+    except Exception as ex:  # noqa: BLE001
+        return f"{type(ex).__name__}: {str(ex)[:160]}"
+    return None
 
 
 def final_runs(final):
@@ -266,7 +268,7 @@ def final_runs(final):
     return runs
 
 
-def collect(p, problem, log, dt, final=None):
+def collect(p, problem, log, dt, final=None, load_err=None):
     """Probes of one calibration run: every logged evaluation, every champion and best individual, and the
     final application of the last champions' parameters (whose simulated outputs the result reports)."""
 
@@ -321,6 +323,12 @@ def collect(p, problem, log, dt, final=None):
                 want.append(_hx(qv[a:a + b]))
                 a += b
             wants.append(want)
+        if not runs and load_err and load_err.startswith(("IndexError", "TypeError")):
+            # no pipeline ran at all and the load died in the assignment walk (parameter[a] / parameter[a:b]):
+            # the reported parameters of every island were NOT applied
+            for k in range(len(dec)):
+                probes.append(dict(tag="final", x=_hx(dec[k]), x_after=_hx(dec[k]), conv=_hx(par[k]), applied=[],
+                                   error=f"final application failed before the pipeline ran: {load_err}"))
         for r in runs:
             got = [e[2] for e in r[:nvar]]
             k = next((k for k, w in enumerate(wants) if w == got), 0)     # no island reports it: judged against island 0
@@ -489,12 +497,12 @@ def calib2(p):
             del log[:]
             n_before = len(built)
             st = dict(op="build")
-            dt, err = None, None
+            dt, err, load_err = None, None, None
             pr.GLOBAL = []
             try:
                 dt = calibration.run_calibration(processor=processor, output_dir=None, with_inherited_coords=False,
                                                  with_progress_bar=False)
-                load_simulated(dt)
+                load_err = load_simulated(dt)
             except Exception as ex:  # noqa: BLE001
                 err = f"{type(ex).__name__}: {str(ex)[:200]}"
             finally:
@@ -516,7 +524,7 @@ def calib2(p):
             steps.append(st)
             if err is not None:
                 return {"calib_error": f"run {k}: {err}", "steps": steps}
-            for pbe in collect(p, pb, list(log), dt, final):
+            for pbe in collect(p, pb, list(log), dt, final, load_err):
                 steps.append(dict(op="fitness", pid=len(problems) - 1, snap=snap, **pbe))
     finally:
         ModelFittingDataTree.fitness, ModelFittingDataTree.__init__ = orig_fit, orig_init
